@@ -262,3 +262,25 @@ CHECKS["C08"] = NS(
         "thorough": [("structure", 6, {"n": 10000}), ("function", 10, {"n": 15000})],
     },
 )
+
+CHECKS["C11"] = NS(
+    MODULE="c11_grad",
+    LEVEL="exploration",
+    LEVEL_TEXT=(
+        "Hypothesis-generated Linear/Conv2d twins (six weight qtypes, activations off/qint8/float8 with drawn, saturating or "
+        "calibrated scales, input rank 2-4, contiguous / permuted inputs, contiguous / permuted / expanded upstream gradients, "
+        "float or already-quantized inputs, frozen or not): gradients of input, weight and bias are compared with autograd of "
+        "a float64 reference graph that wraps the same projections in explicit straight-through estimators; frozen weights and "
+        "scales must receive no gradient. A second generator interleaves forwards with in-place weight updates / SGD steps and "
+        "requires every forward to equal the one computed from the weight as it is now. Exploration."
+    ),
+    LEVEL_NOTE="float64 autograd of torch's functionals is the reference; bound (K+8)u*|g|.|w| per gradient contraction, computed by running the same bilinear maps on absolute values",
+    TECHNIQUE=PBT + "differential oracle against autograd of a float64 straight-through reference graph; short update/forward histories for staleness",
+    RULE=(
+        "grad: kind x hyper-parameters x weight qtype x activation qtype x scale kind (incl. scales that make activations saturate) x rank x "
+        "layouts x frozen x input kind. stale: 2-6 steps from {forward, big/small/row in-place update, SGD step}. Non-trivial: input rank != 3, "
+        "or non-contiguous input/gradient, or Conv2d, or non-qint8 weights, or frozen; histories with an update followed by a forward."
+    ),
+    ASSUMPTIONS=["float32 modules only (float64 oracle)", "Linear inputs of rank >= 2 (1-D activations are outside the property's domain)"],
+    PLAN={"quick": [("grad", 12, {"n": 250}), ("stale", 4, {"n": 150})], "thorough": [("grad", 12, {"n": 10000}), ("stale", 4, {"n": 5000})]},
+)
